@@ -58,6 +58,16 @@ CLAIMS = {
          "Trusted: vf/gen_pattern.py dense interpreter (written from the module docstring, self-checked on its two examples), numpy, Hypothesis. "
          "Operands of one equation share index types (documented precondition); +inf not generated for the arg-max variant.",
          "DESIGN.md section 5, C07"),
+ 'C06': ("Hypothesis-generated typed patterned tensors + short operation programs vs. torch on independently interpreted dense twins (differential/model-based oracle), representation invariant instrumented inside library calls",
+         "Pools of patterned tensors over common index types (products, sums, shared axes, stride-0 views, defaults incl. +-inf) are driven through "
+         "programs of 1-4 operations covering every operation named in the statement (60 operation kinds incl. in-place forms on clones, where, any, "
+         "log_softmax, indexing, iteration, tolist, shape ops, stack, clone/copy_/to/default_to/project/dim_to_dense, reshape/view incl. the "
+         "mandatory-success class); after every step to_dense() must equal the torch operation on the dense twins (NaN positions coincide) and the "
+         "representation invariant (sizes, no size-1 physical axis, distinct axes, injective in-range index map) must hold for the result and for every "
+         "PatternedTensor constructed inside the call. Sampled, bounded sizes.",
+         "Trusted: vf/gen_pattern.py interpreter (from the docstring; agreement with to_dense asserted on every input), torch CPU kernels as reference, Hypothesis. "
+         "Mixed-dtype operands, norm and repeat are not generated (outside the statement).",
+         "DESIGN.md section 5, C06"),
 }
 
 NOT_YET = {}   # id -> reason (filled while the framework is being built)
